@@ -22,6 +22,8 @@ EXPLANATION = (
     "client's pace are schedule-dependent and not decided; whether the sticky "
     "Channel_Error status is reachable under a blocking writer is ring "
     "arithmetic and is reported as an observation only.")
+EXPLANATION += (" R-CONSUME (discard mode) on the stop-time flush; the channel's reader-side rules and R-LIN.")
+
 
 
 def run(ctx, res):
